@@ -254,11 +254,26 @@ def d5_5(ctx):
         ctx.undecided(ckey(lx.key + "._read_template"), fn, "loop not found")
         return
     lp = loops[0]
-    init = [n for n in walk(fn) if isinstance(n, ast.Assign) and atom_name(n.targets[0]) == "offset"]
-    upd = [n for n in walk(lp) if isinstance(n, ast.AugAssign) and atom_name(n.target) == "offset"]
-    cat = [n for n in walk(lp) if isinstance(n, ast.AugAssign) and atom_name(n.target) == "template_raw"]
-    ok = len(init) == 1 and ctx.folder.eval(init[0].value, lx.module) == 0 and len(upd) == 1 and len(cat) == 1 and isinstance(upd[0].op, ast.Add) and src(upd[0].value).replace(" ", "") == f"len({src(cat[0].value)})" and cat[0].lineno < upd[0].lineno
-    ctx.check(ok, ckey(lx.key + "._read_template", "offset"), upd[0] if upd else lp, "offset advances by the length of the chunk just concatenated", "template read offset is not the running length of the data received")
+    # accumulator normal form: every numeric variable carried by the loop is  init + k * R  where R is the number of bytes
+    # received so far (each update adds k * len(chunk just concatenated)); the request fields are then linear forms in R
+    returned = {atom_name(r.value) for r in walk(fn) if isinstance(r, ast.Return) and r.value is not None}
+    cat = [n for n in walk(lp) if isinstance(n, ast.AugAssign) and isinstance(n.op, ast.Add) and isinstance(n.target, ast.Name) and n.target.id in returned]
+    chunk_len = f"len({src(cat[0].value)})" if len(cat) == 1 else None
+    carried, problems = {}, []
+    for n in walk(lp):
+        if isinstance(n, ast.AugAssign) and isinstance(n.target, ast.Name) and n is not (cat[0] if cat else None) and isinstance(n.op, (ast.Add, ast.Sub)):
+            v = n.target.id
+            inits = [x for x in walk(fn) if isinstance(x, ast.Assign) and atom_name(x.targets[0]) == v and x.lineno < lp.lineno]
+            d = lin(n.value)
+            li = lin(inits[0].value) if len(inits) == 1 else None
+            if v in carried or li is None or d is None or chunk_len is None or set(d.terms) != {chunk_len} or d.const != 0:
+                problems.append(f"`{src(n)}` does not advance {v} by a multiple of {chunk_len}")
+                continue
+            k = d.terms[chunk_len] * (1 if isinstance(n.op, ast.Add) else -1)
+            carried[v] = li + Lin(0, {"<received>": k})
+    ok = len(cat) == 1 and not problems and bool(carried)
+    ctx.check(ok, ckey(lx.key + "._read_template", "offset"), cat[0] if cat else lp, f"loop variables advance by the length of the chunk just concatenated: {{{', '.join(f'{k}: {v!r}' for k, v in carried.items())}}}",
+              f"template read bookkeeping is not a running count of the data received: {problems or 'no accumulator found'}")
     rd = None
     for c in walk(lp):
         if isinstance(c, ast.Call) and attr_path(c.func) == "self.generic_message":
@@ -267,13 +282,13 @@ def d5_5(ctx):
     facts = {}
     if isinstance(rd, ast.Call) and isinstance(rd.func, ast.Attribute) and rd.func.attr == "join" and isinstance(rd.args[0], (ast.Tuple, ast.List)) and len(rd.args[0].elts) == 2:
         a, b = rd.args[0].elts
-        la = lin(a.args[0]) if isinstance(a, ast.Call) else None
-        lb = lin(b.args[0]) if isinstance(b, ast.Call) else None
+        la = lin(a.args[0], subst=carried) if isinstance(a, ast.Call) else None
+        lb = lin(b.args[0], subst=carried) if isinstance(b, ast.Call) else None
         ta = ctx.folder.eval(a.func.value, lx.module) if isinstance(a, ast.Call) else None
         tb = ctx.folder.eval(b.func.value, lx.module) if isinstance(b, ast.Call) else None
         facts = {"offset_field": repr(la), "size_field": repr(lb)}
-        ok = la == Lin(0, {"offset": 1}) and lb == Lin(-21, {"object_definition_size": 4, "offset": -1}) and isinstance(ta, ClassRef) and ctx.folder.class_attr(ta.ci, "size") == 4 and isinstance(tb, ClassRef) and tb.ci.name == "UINT"
-    ctx.check(ok, ckey(lx.key + "._read_template", "request"), lp, "request = 4-byte offset + UINT((definition size * 4 - 21) - offset)", f"template read request fields changed: {facts}", **facts)
+        ok = la == Lin(0, {"<received>": 1}) and lb == Lin(-21, {"object_definition_size": 4, "<received>": -1}) and isinstance(ta, ClassRef) and ctx.folder.class_attr(ta.ci, "size") == 4 and isinstance(tb, ClassRef) and tb.ci.name == "UINT"
+    ctx.check(ok, ckey(lx.key + "._read_template", "request"), lp, "request = 4-byte offset (= bytes received) + UINT((definition size * 4 - 21) - bytes received)", f"template read request fields are not (received, total - received): {facts}", **facts)
     g = ctx.cfg(fn)
     brk = [n for n in g.nodes if n.kind == "stmt" and isinstance(n.ast, ast.Break)]
     ok = False
